@@ -449,6 +449,14 @@ func (d *Driver) stepReplay() {
 }
 
 // stepRules makes one offer that the sealing rules forbid and checks that it is refused and leaves no trace.
+// emptyData: "no data" comes in two spellings, an absent slice and an empty one (every second forbidden offer).
+func (d *Driver) emptyData() []byte {
+	if d.Forbid%2 == 0 {
+		return []byte{}
+	}
+	return nil
+}
+
 func (d *Driver) stepRules() {
 	w := d.W
 	r := w.R
@@ -513,7 +521,7 @@ func (d *Driver) stepRules() {
 		}
 	case 2: // neither data nor spice
 		rule = "empty-transaction"
-		t := w.NewTrx(d.randUser(), to.Addr, spice.Melange{}, nil)
+		t := w.NewTrx(d.randUser(), to.Addr, spice.Melange{}, d.emptyData())
 		trxHash = t.Hash
 		if viaGossip {
 			l, rr, wgt, ok := d.pickParents(n)
@@ -540,7 +548,7 @@ func (d *Driver) stepRules() {
 		case "self-sealed":
 			t = w.NewTrx(sealer, to.Addr, amt, data)
 		case "empty-transaction":
-			t = w.NewTrx(d.randUser(), to.Addr, spice.Melange{}, nil)
+			t = w.NewTrx(d.randUser(), to.Addr, spice.Melange{}, d.emptyData())
 		default:
 			t = w.NewTrx(genActor, to.Addr, amt, data)
 		}
